@@ -90,6 +90,9 @@ impl GWorld {
                 s.push_str(&inc);
             }
         }
+        if self.esc_block(i) {
+            s.push_str(&format!("esc{i}\nTXTPP#include {}\n", Self::out_name(i)));
+        }
         if !self.no_tail(i) {
             s.push_str(&format!("tail{i}\n"));
         } else if let Some(last) = self.deps[i].last() {
@@ -101,6 +104,12 @@ impl GWorld {
         }
         memo.insert(i, s.clone());
         s
+    }
+    /// files with dependencies that keep their tail line also carry, after the dependency directives, a write block
+    /// whose continuation line is directive text naming the file's own output (the README's escaping idiom): it is an
+    /// argument of `write`, never a dependency
+    fn esc_block(&self, i: usize) -> bool {
+        !self.markers && !self.deps[i].is_empty() && !self.no_tail(i)
     }
     /// every other file with dependencies ends with its last dependency directive as the final line of the
     /// source (nothing after it); not in marker worlds, whose completeness oracle looks for the tail line
@@ -139,6 +148,9 @@ impl GWorld {
             } else {
                 s.push_str(&format!("TXTPP#include {sp}\n"));
             }
+        }
+        if self.esc_block(i) {
+            s.push_str(&format!("=TXTPP#write esc{i}\n=TXTPP#include {}\n=\n", Self::out_name(i)));
         }
         if self.markers && !self.deps[i].is_empty() {
             // runs only in the second pass; checks that every dependency output is complete at that time
